@@ -1,6 +1,8 @@
-//! Lowering of function bodies (statements, control flow, assignment) to the intermediate form.
+//! Lowering of function bodies (statements, assignment, places, types) to the intermediate form.
 use crate::emit::{tuple_pat, tuple_val, Emitter, S};
+use crate::macros::MacroDef;
 use crate::ty::*;
+use crate::vecs::Deleg;
 use std::collections::{BTreeSet, HashMap};
 use syn::spanned::Spanned;
 
@@ -22,11 +24,58 @@ pub struct GConst {
 pub struct Globals {
     /// associated constants of `trait Float` with their declared integer types
     pub float_consts: HashMap<String, IntTy>,
-    /// already translated functions, by Rust key (`name`, `Number::name`, `Float::name`, …)
+    /// already translated functions: free functions by `file.rs:name`, methods by `Owner::name`
     pub fns: HashMap<String, FnInfo>,
     pub consts: HashMap<String, GConst>,
-    /// functions (by Rust key) that could not be translated
+    /// functions (same keys) that could not be translated
     pub omitted: std::collections::HashSet<String>,
+    /// `macro_rules!` definitions per source file (rule 20)
+    pub macros: HashMap<String, HashMap<String, MacroDef>>,
+    /// delegating methods (rule 22) by `VecType::name` / `Bigint::name`
+    pub deleg: HashMap<String, Result<Deleg, String>>,
+    /// `Limb = u64`, `Wide = u128`, `LIMB_BITS = 64`, `VecType`, `Bigint`, `ReverseView` are
+    /// declared as rule 14 assumes
+    pub limb_ok: Result<(), String>,
+    /// `Number` derives `Default`
+    pub number_default: bool,
+    /// `shl_limbs` (rule 23) is declared as `fn(&mut VecType, usize) -> Option<()>` in bigint.rs
+    pub shl_limbs_ok: bool,
+}
+
+impl Globals {
+    /// the table key of the function that the path `key` denotes inside `file`: a method
+    /// (`Owner::name`), a function of a named module (`bigint::name`), a function of the same file,
+    /// or the function of that name in another file (must be unique)
+    fn resolve(&self, file: &str, key: &str, table: &dyn Fn(&str) -> bool) -> Option<String> {
+        if let Some((m, rest)) = key.split_once("::") {
+            let k = format!("{}.rs:{}", m, rest);
+            if !rest.contains("::") && table(&k) {
+                return Some(k);
+            }
+            return if table(key) { Some(key.to_string()) } else { None };
+        }
+        let k = format!("{}:{}", file, key);
+        if table(&k) {
+            return Some(k);
+        }
+        let suffix = format!(":{}", key);
+        let mut found: Vec<String> =
+            self.fns.keys().chain(self.omitted.iter()).filter(|x| !x.contains("::") && x.ends_with(&suffix) && table(x)).cloned().collect();
+        found.sort();
+        found.dedup();
+        if found.len() == 1 {
+            found.pop()
+        } else {
+            None
+        }
+    }
+    pub fn get_fn(&self, file: &str, key: &str) -> Option<&FnInfo> {
+        let k = self.resolve(file, key, &|k| self.fns.contains_key(k))?;
+        self.fns.get(&k)
+    }
+    pub fn is_omitted(&self, file: &str, key: &str) -> bool {
+        self.resolve(file, key, &|k| self.omitted.contains(k)).is_some()
+    }
 }
 
 #[derive(Clone, Debug)]
@@ -34,16 +83,23 @@ pub struct Val {
     /// pure Gallina term (atomic or parenthesised)
     pub t: String,
     pub ty: Ty,
-    /// the expression never produces a value (`return`)
+    /// the expression never produces a value (`return`, `break`)
     pub never: bool,
+    /// for a value of type OptUpd: the variables (Rust names) updated by `Some`
+    pub upd: Vec<String>,
 }
 
 impl Val {
     pub fn new(t: impl Into<String>, ty: Ty) -> Val {
-        Val { t: t.into(), ty, never: false }
+        Val { t: t.into(), ty, never: false, upd: vec![] }
     }
     pub fn unit() -> Val {
         Val::new("tt", Ty::Unit)
+    }
+    pub fn never() -> Val {
+        let mut u = Val::unit();
+        u.never = true;
+        u
     }
 }
 
@@ -52,11 +108,43 @@ pub struct Var {
     pub ty: Ty,
     /// the variable is a `&mut T` (parameter or closure parameter)
     pub mutref: bool,
+    /// its Gallina name: `v_<name>`, primed when it shadows a variable of an enclosing block
+    pub cname: String,
+    /// bound to an unsuffixed integer literal and not yet used at a definite type
+    pub flex: bool,
+    /// an immutable local bound to an integer literal (used to evaluate `pow`)
+    pub konst: Option<u128>,
+    /// `let xi = x.get_mut(i).unwrap()`: (`x`, the Gallina term of the index)
+    pub alias: Option<(String, String)>,
+}
+
+impl Var {
+    pub fn plain(ty: Ty, mutref: bool, cname: String) -> Var {
+        Var { ty, mutref, cname, flex: false, konst: None, alias: None }
+    }
 }
 
 pub struct Frame {
     pub depth: usize,
     pub assigned: BTreeSet<String>,
+}
+
+/// a loop being lowered: its id, its label, the scope depth outside it
+pub struct LoopCtx {
+    pub id: usize,
+    pub label: Option<String>,
+}
+
+/// condition of a two-way branch: a bool term, or a scrutinee with the two patterns of a `match`
+pub struct Cond {
+    pub c: String,
+    pub m: Option<(String, String)>,
+}
+
+impl Cond {
+    pub fn bool(c: impl Into<String>) -> Cond {
+        Cond { c: c.into(), m: None }
+    }
 }
 
 pub struct Cx<'a> {
@@ -69,13 +157,27 @@ pub struct Cx<'a> {
     pub ret_ty: Ty,
     /// `&mut` parameters of the function (closure) being translated, in order
     pub mut_params: Vec<String>,
-    /// type of `self`, and the impl it belongs to ("Float", "Number", "BellerophonPowers")
+    /// type of `self`, and the impl it belongs to ("Float", "Number", "BellerophonPowers", …)
     pub self_kind: Option<String>,
     pub loop_fuel: u32,
+    /// fuel expressions for the `while` / `loop`s of the function, in source order (rule 16)
+    pub fuels: Vec<String>,
+    pub fuel_ix: usize,
+    pub loops: Vec<LoopCtx>,
+    pub loop_count: usize,
+    /// generic type parameters of the function (`Cb` = a callback type, `Iter1` = an iterator)
+    pub tparams: HashMap<String, Ty>,
+    /// source file of the function (for its macros)
+    pub file: String,
+    pub macro_depth: usize,
 }
 
 pub fn vname(x: &str) -> String {
     format!("v_{}", x)
+}
+
+pub fn is_numeral(t: &str) -> bool {
+    !t.is_empty() && t.chars().all(|c| c.is_ascii_digit())
 }
 
 impl<'a> Cx<'a> {
@@ -91,6 +193,13 @@ impl<'a> Cx<'a> {
             mut_params: vec![],
             self_kind: None,
             loop_fuel: 0,
+            fuels: vec![],
+            fuel_ix: 0,
+            loops: vec![],
+            loop_count: 0,
+            tparams: HashMap::new(),
+            file: String::new(),
+            macro_depth: 0,
         }
     }
 
@@ -112,16 +221,45 @@ impl<'a> Cx<'a> {
         None
     }
 
-    /// declare a new local; shadowing a variable of an *enclosing* block is refused (the
-    /// translation relies on Gallina shadowing, which would leak out of the block)
-    pub fn declare(&mut self, sp: proc_macro2::Span, x: &str, ty: Ty, mutref: bool) -> R<()> {
-        if let Some((d, _)) = self.lookup(x) {
-            if d + 1 != self.scopes.len() {
-                return err(sp, format!("`let {}` shadows a variable of an enclosing block (unsupported)", x));
+    pub fn lookup_mut(&mut self, x: &str) -> Option<&mut Var> {
+        for sc in self.scopes.iter_mut().rev() {
+            if let Some(v) = sc.get_mut(x) {
+                return Some(v);
             }
         }
-        self.scopes.last_mut().unwrap().insert(x.to_string(), Var { ty, mutref });
-        Ok(())
+        None
+    }
+
+    /// the Gallina name of the visible variable `x`
+    pub fn cn(&self, x: &str) -> String {
+        match self.lookup(x) {
+            Some((_, v)) => v.cname.clone(),
+            None => vname(x),
+        }
+    }
+
+    /// The Gallina name for a new local `x` declared in scope number `depth`: `v_x`; a `let` that
+    /// shadows a variable of an *enclosing* block gets primes (`v_x'`), so that Gallina shadowing
+    /// never leaks out of the block; a `let` that shadows a variable of the same block reuses its
+    /// name (that is the SSA renaming of rule 1).
+    pub fn new_cname(&self, x: &str, depth: usize) -> String {
+        if let Some(sc) = self.scopes.get(depth) {
+            if let Some(v) = sc.get(x) {
+                return v.cname.clone();
+            }
+        }
+        let mut n = vname(x);
+        while self.scopes.iter().any(|sc| sc.get(x).map(|v| v.cname == n).unwrap_or(false)) {
+            n.push('\'');
+        }
+        n
+    }
+
+    /// declare a new local in the innermost scope; returns its Gallina name
+    pub fn declare(&mut self, _sp: proc_macro2::Span, x: &str, ty: Ty, mutref: bool) -> R<String> {
+        let cname = self.new_cname(x, self.scopes.len() - 1);
+        self.scopes.last_mut().unwrap().insert(x.to_string(), Var::plain(ty, mutref, cname.clone()));
+        Ok(cname)
     }
 
     pub fn mark_assigned(&mut self, x: &str) {
@@ -136,13 +274,48 @@ impl<'a> Cx<'a> {
         }
     }
 
+    /// a flexible (literal-initialised) variable is used at type `ty`: that is its type from now on
+    pub fn fix_flex(&mut self, x: &str, ty: Option<&Ty>) {
+        if let Some(v) = self.lookup_mut(x) {
+            if v.flex {
+                v.flex = false;
+                if let Some(t @ Ty::Int(_)) = ty {
+                    v.ty = t.clone();
+                }
+            }
+        }
+    }
+
     /// the monadic term with which the function returns the value `v`
     pub fn ret_term(&self, v: &Val) -> String {
-        let mut parts: Vec<String> = self.mut_params.iter().map(|p| vname(p)).collect();
+        let mut parts: Vec<String> = self.mut_params.iter().map(|p| self.cn(p)).collect();
+        if self.ret_ty == Ty::Opt(Box::new(Ty::Unit)) && !parts.is_empty() {
+            // rule 15: `Some(())` carries the updated `&mut` arguments, `None` loses them
+            if v.ty == Ty::OptUpd {
+                if v.upd == self.mut_params {
+                    return format!("Ok {}", crate::emit::paren(&v.t));
+                }
+                return "Ok rs2coq_internal_error_OptUpd_of_other_variables".into();
+            }
+            let some = format!("(Some {})", crate::emit::paren(&tuple_val(&parts)));
+            return match v.t.as_str() {
+                "None" => "Ok None".into(),
+                "(Some tt)" => format!("Ok {}", some),
+                t => format!("Ok (match {} with Some _ => {} | None => None end)", t, some),
+            };
+        }
         if self.ret_ty != Ty::Unit || parts.is_empty() {
             parts.push(v.t.clone());
         }
         format!("Ok {}", crate::emit::paren(&tuple_val(&parts)))
+    }
+
+    /// is a value of type `got` acceptable where the function result type `want` is expected
+    pub fn ret_compatible(&self, v: &Val, want: &Ty) -> bool {
+        if v.ty == Ty::OptUpd {
+            return *want == Ty::Opt(Box::new(Ty::Unit)) && !self.mut_params.is_empty() && v.upd == self.mut_params;
+        }
+        v.ty == *want
     }
 
     // ------------------------------------------------------------------ blocks and statements
@@ -155,57 +328,164 @@ impl<'a> Cx<'a> {
         r
     }
 
-    fn cfg_dropped(&self, attrs: &[syn::Attribute]) -> R<bool> {
+    /// `#[cfg(..)]` on a statement: None = no cfg; Some(None) = dropped (`nightly`);
+    /// Some(Some(k)) = present iff `compact c = k` (rule 21)
+    fn stmt_cfg(&self, attrs: &[syn::Attribute]) -> R<Option<Option<bool>>> {
         for a in attrs {
             if a.path().is_ident("cfg") {
                 let s = a.meta.require_list().map_err(|e| e.to_string())?.tokens.to_string();
                 let s: String = s.chars().filter(|c| !c.is_whitespace()).collect();
-                if s == "feature=\"nightly\"" {
-                    return Ok(true);
-                }
-                return err(a.span(), format!("unsupported #[cfg({})] on a statement", s));
+                return match s.as_str() {
+                    "feature=\"nightly\"" => Ok(Some(None)),
+                    "feature=\"compact\"" => Ok(Some(Some(true))),
+                    "not(feature=\"compact\")" => Ok(Some(Some(false))),
+                    _ => err(a.span(), format!("unsupported #[cfg({})] on a statement", s)),
+                };
             }
         }
-        Ok(false)
+        Ok(None)
+    }
+
+    fn stmt_attrs(st: &syn::Stmt) -> &[syn::Attribute] {
+        use syn::Expr as E;
+        match st {
+            syn::Stmt::Local(l) => &l.attrs,
+            syn::Stmt::Macro(m) => &m.attrs,
+            syn::Stmt::Expr(e, _) => match e {
+                E::Block(x) => &x.attrs,
+                E::Return(x) => &x.attrs,
+                E::If(x) => &x.attrs,
+                E::While(x) => &x.attrs,
+                E::ForLoop(x) => &x.attrs,
+                E::Loop(x) => &x.attrs,
+                E::Unsafe(x) => &x.attrs,
+                E::Call(x) => &x.attrs,
+                E::MethodCall(x) => &x.attrs,
+                E::Assign(x) => &x.attrs,
+                E::Binary(x) => &x.attrs,
+                E::Macro(x) => &x.attrs,
+                E::Try(x) => &x.attrs,
+                E::Match(x) => &x.attrs,
+                E::Break(x) => &x.attrs,
+                _ => &[],
+            },
+            syn::Stmt::Item(_) => &[],
+        }
     }
 
     pub fn lower_stmts(&mut self, stmts: &[syn::Stmt], expected: Option<&Ty>) -> R<Val> {
         let n = stmts.len();
         let mut last = Val::unit();
-        for (i, st) in stmts.iter().enumerate() {
-            let is_last = i + 1 == n;
-            last = Val::unit();
-            match st {
-                syn::Stmt::Local(l) => {
-                    if self.cfg_dropped(&l.attrs)? {
-                        continue;
+        let mut i = 0;
+        while i < n {
+            let st = &stmts[i];
+            let cfg = self.stmt_cfg(Self::stmt_attrs(st))?;
+            match cfg {
+                None => {
+                    last = self.lower_stmt(st, i + 1 == n, expected)?;
+                    i += 1;
+                }
+                Some(None) => {
+                    // #[cfg(feature = "nightly")]: dropped (rule 12)
+                    if !matches!(st, syn::Stmt::Local(_)) {
+                        return err(st.span(), "#[cfg(feature = \"nightly\")] on something other than a `let`");
                     }
-                    self.lower_local(l)?;
+                    last = Val::unit();
+                    i += 1;
                 }
-                syn::Stmt::Item(syn::Item::Const(c)) => {
-                    let ty = self.conv_ty(&c.ty)?;
-                    let v = self.lower_expr(&c.expr, Some(&ty))?;
-                    let name = c.ident.to_string();
-                    self.declare(c.span(), &name, ty, false)?;
-                    self.push(S::Let(vname(&name), v.t));
-                }
-                syn::Stmt::Item(it) => return err(it.span(), "unsupported item in a function body"),
-                syn::Stmt::Macro(m) => {
-                    self.lower_macro(&m.mac)?;
-                }
-                syn::Stmt::Expr(e, semi) => {
-                    if is_last && semi.is_none() {
-                        last = self.lower_expr(e, expected)?;
-                    } else {
-                        let v = self.lower_expr(e, None)?;
-                        if v.never && is_last {
-                            last = v;
+                Some(Some(k)) => {
+                    // rule 21: `if compact c then .. else ..`; two adjacent statements with
+                    // complementary conditions are the two branches of one `if`
+                    let mut other: Option<&syn::Stmt> = None;
+                    if i + 1 < n {
+                        if let Some(Some(k2)) = self.stmt_cfg(Self::stmt_attrs(&stmts[i + 1]))? {
+                            if k2 != k {
+                                other = Some(&stmts[i + 1]);
+                            }
                         }
                     }
+                    let used = if other.is_some() { 2 } else { 1 };
+                    let is_last = i + used == n;
+                    let (yes, no) = if k { (Some(st), other) } else { (other, Some(st)) };
+                    for s in [yes, no].into_iter().flatten() {
+                        if matches!(s, syn::Stmt::Local(_) | syn::Stmt::Item(_)) {
+                            return err(s.span(), "#[cfg(feature = \"compact\")] on a `let` / item");
+                        }
+                    }
+                    self.needs.c = true;
+                    let ex = if is_last { expected } else { None };
+                    let one = |cx: &mut Self, s: Option<&syn::Stmt>, ex: Option<&Ty>| -> R<Val> {
+                        match s {
+                            None => Ok(Val::unit()),
+                            Some(s) => {
+                                cx.scopes.push(HashMap::new());
+                                let r = cx.lower_stmt(s, is_last, ex);
+                                cx.scopes.pop();
+                                r
+                            }
+                        }
+                    };
+                    last = self.lower_branches(
+                        st.span(),
+                        Cond::bool("compact c"),
+                        ex,
+                        &mut |cx, ex| one(cx, yes, ex),
+                        &mut |cx, ex| one(cx, no, ex),
+                    )?;
+                    i += used;
                 }
             }
         }
         Ok(last)
+    }
+
+    /// one statement (its `cfg` attribute, if any, has been dealt with by the caller)
+    fn lower_stmt(&mut self, st: &syn::Stmt, is_last: bool, expected: Option<&Ty>) -> R<Val> {
+        match st {
+            syn::Stmt::Local(l) => {
+                self.lower_local(l)?;
+                Ok(Val::unit())
+            }
+            syn::Stmt::Item(syn::Item::Const(c)) => {
+                let ty = self.conv_ty(&c.ty)?;
+                let v = self.lower_expr(&c.expr, Some(&ty))?;
+                let name = c.ident.to_string();
+                let cn = self.declare(c.span(), &name, ty, false)?;
+                self.push(S::Let(cn, v.t));
+                Ok(Val::unit())
+            }
+            syn::Stmt::Item(it) => err(it.span(), "unsupported item in a function body"),
+            syn::Stmt::Macro(m) => {
+                let v = self.lower_macro(&m.mac, if is_last && m.semi_token.is_none() { expected } else { None })?;
+                if is_last && m.semi_token.is_none() || v.never {
+                    Ok(v)
+                } else {
+                    self.discard(m.span(), &v)?;
+                    Ok(Val::unit())
+                }
+            }
+            syn::Stmt::Expr(e, semi) => {
+                if is_last && semi.is_none() {
+                    self.lower_expr(e, expected)
+                } else {
+                    let v = self.lower_expr(e, None)?;
+                    if v.never && is_last {
+                        Ok(v)
+                    } else {
+                        self.discard(e.span(), &v)?;
+                        Ok(Val::unit())
+                    }
+                }
+            }
+        }
+    }
+
+    /// the value of an expression statement is dropped
+    fn discard(&self, sp: proc_macro2::Span, v: &Val) -> R<()> {
+        if v.ty == Ty::OptUpd {
+            return err(sp, "the `Option<()>` result of a function with `&mut` parameters is ignored (rule 15 needs `?` or `.unwrap()`)");
+        }
+        Ok(())
     }
 
     fn lower_local(&mut self, l: &syn::Local) -> R<()> {
@@ -217,25 +497,44 @@ impl<'a> Cx<'a> {
             Some(i) if i.diverge.is_none() => &*i.expr,
             _ => return err(l.span(), "`let` without initialiser / with `else` is unsupported"),
         };
+        if let Some(()) = self.try_lower_alias(pat, init)? {
+            return Ok(());
+        }
+        let untyped = declared.is_none() && self.ty_of(init).is_none();
         let v = self.lower_expr(init, declared.as_ref())?;
         if let Some(d) = &declared {
             if *d != v.ty {
                 return err(l.span(), format!("declared type {} differs from inferred {}", d, v.ty));
             }
         }
-        self.bind_pat(pat, &v)
+        self.bind_pat(pat, &v)?;
+        if let syn::Pat::Ident(pi) = pat {
+            let name = pi.ident.to_string();
+            let lit = is_numeral(&v.t);
+            if let Some(var) = self.lookup_mut(&name) {
+                // `let x = 0;`: the type is fixed by the first typed use (rule 2)
+                var.flex = untyped && lit && matches!(var.ty, Ty::Int(_));
+                if pi.mutability.is_none() && lit {
+                    var.konst = v.t.parse::<u128>().ok();
+                }
+            }
+        }
+        Ok(())
     }
 
     /// bind the (pure) value `v` to the pattern: identifier, `_`, or a tuple of those
     pub fn bind_pat(&mut self, pat: &syn::Pat, v: &Val) -> R<()> {
+        if v.ty == Ty::OptUpd {
+            return err(pat.span(), "binding the `Option<()>` result of a function with `&mut` parameters (rule 15)");
+        }
         match pat {
             syn::Pat::Ident(pi) => {
                 if pi.by_ref.is_some() || pi.subpat.is_some() {
                     return err(pi.span(), "unsupported binding mode");
                 }
                 let name = pi.ident.to_string();
-                self.declare(pi.span(), &name, v.ty.clone(), false)?;
-                self.push(S::Let(vname(&name), v.t.clone()));
+                let cn = self.declare(pi.span(), &name, v.ty.clone(), false)?;
+                self.push(S::Let(cn, v.t.clone()));
                 Ok(())
             }
             syn::Pat::Wild(_) => Ok(()),
@@ -249,8 +548,7 @@ impl<'a> Cx<'a> {
                     match p {
                         syn::Pat::Ident(pi) if pi.by_ref.is_none() && pi.subpat.is_none() => {
                             let name = pi.ident.to_string();
-                            self.declare(pi.span(), &name, ty.clone(), false)?;
-                            names.push(vname(&name));
+                            names.push(self.declare(pi.span(), &name, ty.clone(), false)?);
                         }
                         syn::Pat::Wild(_) => names.push("_".into()),
                         p => return err(p.span(), "unsupported nested pattern"),
@@ -263,10 +561,49 @@ impl<'a> Cx<'a> {
         }
     }
 
-    fn lower_macro(&mut self, mac: &syn::Macro) -> R<()> {
-        if !mac.path.is_ident("debug_assert") {
-            return err(mac.span(), "unsupported macro (only debug_assert! is translated)");
+    /// `debug_assert!` (rule 5) or a `macro_rules!` macro of the same file (rule 20)
+    pub fn lower_macro(&mut self, mac: &syn::Macro, expected: Option<&Ty>) -> R<Val> {
+        if mac.path.is_ident("debug_assert") {
+            self.lower_debug_assert(mac)?;
+            return Ok(Val::unit());
         }
+        let name = match mac.path.get_ident() {
+            Some(i) => i.to_string(),
+            None => return err(mac.span(), "unsupported macro path"),
+        };
+        let g = self.g;
+        let def = match g.macros.get(&self.file).and_then(|m| m.get(&name)) {
+            Some(d) => d,
+            None => {
+                return err(mac.span(), format!("unsupported macro `{}!` (only debug_assert! and the macro_rules! of the same file are translated)", name))
+            }
+        };
+        if self.macro_depth >= 16 {
+            return err(mac.span(), "macro expansion too deep");
+        }
+        let ts = match crate::macros::expand(def, mac.tokens.clone()) {
+            Ok(t) => t,
+            Err(e) => return err(mac.span(), format!("macro `{}!`: {}", name, e)),
+        };
+        let stmts = match syn::parse::Parser::parse2(syn::Block::parse_within, ts) {
+            Ok(s) => s,
+            Err(e) => return err(mac.span(), format!("macro `{}!`: the expansion does not parse: {}", name, e)),
+        };
+        // the expansion is its own scope; top-level `let`s would need macro hygiene
+        for s in &stmts {
+            if matches!(s, syn::Stmt::Local(_) | syn::Stmt::Item(_)) {
+                return err(mac.span(), format!("macro `{}!`: the expansion declares a `let` / item at its top level", name));
+            }
+        }
+        self.macro_depth += 1;
+        self.scopes.push(HashMap::new());
+        let r = self.lower_stmts(&stmts, expected);
+        self.scopes.pop();
+        self.macro_depth -= 1;
+        r.map_err(|e| format!("in the expansion of `{}!`: {}", name, e))
+    }
+
+    fn lower_debug_assert(&mut self, mac: &syn::Macro) -> R<()> {
         use syn::punctuated::Punctuated;
         let args = mac
             .parse_body_with(Punctuated::<syn::Expr, syn::Token![,]>::parse_terminated)
@@ -294,252 +631,135 @@ impl<'a> Cx<'a> {
             self.push(da);
         } else {
             pre.push(da);
-            self.push(S::If { c: "dbg b".into(), a: pre, b: vec![], outs: vec![] });
+            self.push(S::If { c: "dbg b".into(), m: None, a: pre, b: vec![], outs: vec![] });
         }
         Ok(())
     }
 
-    // ------------------------------------------------------------------ control flow
+    // ------------------------------------------------------------------ assignment
 
-    /// Lower the two alternatives `a` / `b` (closures producing the branch value) under the
-    /// condition `c`.
-    pub fn lower_branches(
-        &mut self,
-        sp: proc_macro2::Span,
-        c: String,
-        expected: Option<&Ty>,
-        a: &mut dyn FnMut(&mut Self, Option<&Ty>) -> R<Val>,
-        b: &mut dyn FnMut(&mut Self, Option<&Ty>) -> R<Val>,
-    ) -> R<Val> {
-        let depth = self.scopes.len();
-        self.frames.push(Frame { depth, assigned: BTreeSet::new() });
-        self.stmts.push(vec![]);
-        let va = a(self, expected)?;
-        let mut sa = self.stmts.pop().unwrap();
-        self.stmts.push(vec![]);
-        let exp_b: Option<Ty> = expected.cloned().or(if va.never { None } else { Some(va.ty.clone()) });
-        let vb = b(self, exp_b.as_ref())?;
-        let mut sb = self.stmts.pop().unwrap();
-        let fr = self.frames.pop().unwrap();
-        let ty = if va.never { vb.ty.clone() } else { va.ty.clone() };
-        if !va.never && !vb.never && va.ty != vb.ty {
-            return err(sp, format!("branches have different types {} / {}", va.ty, vb.ty));
-        }
-        let valued = ty != Ty::Unit && !(va.never && vb.never);
-        if valued && sa.is_empty() && sb.is_empty() && fr.assigned.is_empty() && !va.never && !vb.never {
-            return Ok(Val::new(format!("(if {} then {} else {})", c, va.t, vb.t), ty));
-        }
-        let mut outs: Vec<String> = fr.assigned.iter().map(|x| vname(x)).collect();
-        for x in fr.assigned.iter() {
-            self.mark_assigned(x);
-        }
-        let res = if valued {
-            let r = self.fresh();
-            if !va.never {
-                sa.push(S::Let(r.clone(), va.t.clone()));
-            }
-            if !vb.never {
-                sb.push(S::Let(r.clone(), vb.t.clone()));
-            }
-            outs.push(r.clone());
-            Val::new(r, ty)
-        } else {
-            let mut u = Val::unit();
-            u.never = va.never && vb.never;
-            u
-        };
-        self.push(S::If { c, a: sa, b: sb, outs });
-        Ok(res)
-    }
-
-    pub fn lower_if(&mut self, e: &syn::ExprIf, expected: Option<&Ty>) -> R<Val> {
-        if let syn::Expr::Let(_) = &*e.cond {
-            return err(e.span(), "`if let` is unsupported");
-        }
-        let c = self.lower_expr(&e.cond, Some(&Ty::Bool))?;
-        if c.ty != Ty::Bool {
-            return err(e.cond.span(), "condition is not a bool");
-        }
-        let then_b = &e.then_branch;
-        let else_e = e.else_branch.as_ref().map(|(_, x)| &**x);
-        self.lower_branches(
-            e.span(),
-            c.t,
-            expected,
-            &mut |cx, ex| cx.lower_block(then_b, ex),
-            &mut |cx, ex| match else_e {
-                Some(x) => cx.lower_expr(x, ex),
-                None => Ok(Val::unit()),
-            },
-        )
-    }
-
-    /// `match` on a `bool`, or on a pair whose second component is matched by `true`/`false`
-    pub fn lower_match(&mut self, e: &syn::ExprMatch, expected: Option<&Ty>) -> R<Val> {
-        let s = self.lower_expr(&e.expr, None)?;
-        if e.arms.len() != 2 {
-            return err(e.span(), "only two-armed `match` on bool / (x, bool) is supported");
-        }
-        for a in &e.arms {
-            if a.guard.is_some() {
-                return err(a.span(), "match guards are unsupported");
-            }
-        }
-        fn bool_pat(p: &syn::Pat) -> Option<bool> {
-            if let syn::Pat::Lit(syn::ExprLit { lit: syn::Lit::Bool(b), .. }) = p {
-                Some(b.value)
-            } else {
-                None
-            }
-        }
-        match &s.ty {
-            Ty::Bool => {
-                let (p0, p1) = (bool_pat(&e.arms[0].pat), bool_pat(&e.arms[1].pat));
-                let (ta, fa) = match (p0, p1) {
-                    (Some(true), Some(false)) => (&e.arms[0], &e.arms[1]),
-                    (Some(false), Some(true)) => (&e.arms[1], &e.arms[0]),
-                    _ => return err(e.span(), "match on bool needs the arms `true` and `false`"),
-                };
-                let (tb, fb) = (&*ta.body, &*fa.body);
-                self.lower_branches(
-                    e.span(),
-                    s.t.clone(),
-                    expected,
-                    &mut |cx, ex| cx.lower_arm(tb, ex),
-                    &mut |cx, ex| cx.lower_arm(fb, ex),
-                )
-            }
-            Ty::Tuple(ts) if ts.len() == 2 && ts[1] == Ty::Bool => {
-                let split = |p: &syn::Pat| -> Option<(syn::Pat, bool)> {
-                    if let syn::Pat::Tuple(pt) = p {
-                        if pt.elems.len() == 2 {
-                            if let Some(b) = bool_pat(&pt.elems[1]) {
-                                return Some((pt.elems[0].clone(), b));
+    /// an assignment target / `&mut` argument
+    pub fn place_of(&self, e: &syn::Expr) -> R<Place> {
+        match e {
+            syn::Expr::Path(p) if p.path.get_ident().is_some() => Ok(Place::Var(p.path.get_ident().unwrap().to_string())),
+            syn::Expr::Unary(u) if matches!(u.op, syn::UnOp::Deref(_)) => {
+                if let syn::Expr::Path(p) = &*u.expr {
+                    if let Some(id) = p.path.get_ident() {
+                        let n = id.to_string();
+                        if let Some((_, v)) = self.lookup(&n) {
+                            if v.alias.is_some() {
+                                return Ok(Place::Alias(n));
                             }
                         }
                     }
-                    None
-                };
-                let (a0, a1) = match (split(&e.arms[0].pat), split(&e.arms[1].pat)) {
-                    (Some(x), Some(y)) if x.1 != y.1 => (x, y),
-                    _ => return err(e.span(), "match on (x, bool) needs arms `(p, true)` and `(q, false)`"),
-                };
-                let ((tp, _), tb, (fp, _), fb) = if a0.1 {
-                    (a0, &*e.arms[0].body, a1, &*e.arms[1].body)
-                } else {
-                    (a1, &*e.arms[1].body, a0, &*e.arms[0].body)
-                };
-                let x = self.fresh();
-                let o = self.fresh();
-                self.push(S::Let(format!("'({}, {})", x, o), s.t.clone()));
-                let xv = Val::new(x, ts[0].clone());
-                self.lower_branches(
-                    e.span(),
-                    o,
-                    expected,
-                    &mut |cx, ex| {
-                        cx.scopes.push(HashMap::new());
-                        let r = cx.bind_pat(&tp, &xv).and_then(|_| cx.lower_arm(tb, ex));
-                        cx.scopes.pop();
-                        r
-                    },
-                    &mut |cx, ex| {
-                        cx.scopes.push(HashMap::new());
-                        let r = cx.bind_pat(&fp, &xv).and_then(|_| cx.lower_arm(fb, ex));
-                        cx.scopes.pop();
-                        r
-                    },
-                )
-            }
-            t => err(e.span(), format!("unsupported `match` scrutinee type {}", t)),
-        }
-    }
-
-    fn lower_arm(&mut self, body: &syn::Expr, expected: Option<&Ty>) -> R<Val> {
-        self.scopes.push(HashMap::new());
-        let r = self.lower_expr(body, expected);
-        self.scopes.pop();
-        r
-    }
-
-    /// `while c { body }` — translated with the fuel given for this function
-    pub fn lower_while(&mut self, e: &syn::ExprWhile) -> R<Val> {
-        if self.loop_fuel == 0 {
-            return err(e.span(), "`while` loop in a function without a declared fuel");
-        }
-        if e.label.is_some() {
-            return err(e.span(), "labelled loops are unsupported");
-        }
-        let depth = self.scopes.len();
-        self.frames.push(Frame { depth, assigned: BTreeSet::new() });
-        self.stmts.push(vec![]);
-        let c = self.lower_expr(&e.cond, Some(&Ty::Bool))?;
-        let cpre = self.stmts.pop().unwrap();
-        self.stmts.push(vec![]);
-        self.lower_block(&e.body, None)?;
-        let body = self.stmts.pop().unwrap();
-        let fr = self.frames.pop().unwrap();
-        for x in fr.assigned.iter() {
-            self.mark_assigned(x);
-        }
-        let vars: Vec<String> = fr.assigned.iter().map(|x| vname(x)).collect();
-        let fuel = self.loop_fuel;
-        self.push(S::While { vars, cpre, c: c.t, body, fuel });
-        Ok(Val::unit())
-    }
-
-    // ------------------------------------------------------------------ assignment
-
-    fn place_var(&self, e: &syn::Expr) -> R<(String, Option<String>)> {
-        match e {
-            syn::Expr::Path(p) if p.path.get_ident().is_some() => Ok((p.path.get_ident().unwrap().to_string(), None)),
-            syn::Expr::Unary(u) if matches!(u.op, syn::UnOp::Deref(_)) => self.place_var(&u.expr),
-            syn::Expr::Paren(p) => self.place_var(&p.expr),
-            syn::Expr::Field(f) => {
-                let (x, sub) = self.place_var(&f.base)?;
-                if sub.is_some() {
-                    return err(e.span(), "nested field assignment");
                 }
+                self.place_of(&u.expr)
+            }
+            syn::Expr::Paren(p) => self.place_of(&p.expr),
+            syn::Expr::Group(p) => self.place_of(&p.expr),
+            syn::Expr::Field(f) => {
+                let x = match self.place_of(&f.base)? {
+                    Place::Var(x) => x,
+                    _ => return err(e.span(), "nested field assignment"),
+                };
+                let vt = match self.lookup(&x) {
+                    Some((_, v)) => v.ty.clone(),
+                    None => return err(e.span(), format!("unknown variable `{}`", x)),
+                };
                 match &f.member {
-                    syn::Member::Named(id) => Ok((x, Some(id.to_string()))),
+                    syn::Member::Named(id) => {
+                        let fl = id.to_string();
+                        // single-field structs are their field (rule 14)
+                        if (vt == Ty::Big && fl == "data") || (vt == Ty::RView && fl == "inner") {
+                            return Ok(Place::Var(x));
+                        }
+                        Ok(Place::Field(x, fl))
+                    }
                     _ => err(e.span(), "assignment to a tuple field"),
                 }
             }
+            syn::Expr::Index(ix) => match self.place_of(&ix.expr)? {
+                Place::Var(x) => Ok(Place::Index(x, (*ix.index).clone())),
+                _ => err(e.span(), "unsupported indexed assignment target"),
+            },
             _ => err(e.span(), "unsupported assignment target"),
         }
     }
 
-    /// type and current value of an assignment target
-    pub fn place_read(&mut self, e: &syn::Expr) -> R<Val> {
-        let (x, fld) = self.place_var(e)?;
-        let var = match self.lookup(&x) {
-            Some((_, v)) => v.clone(),
-            None => return err(e.span(), format!("unknown variable `{}`", x)),
-        };
-        match fld {
-            None => Ok(Val::new(vname(&x), var.ty)),
-            Some(fl) => {
-                let (acc, ty) = self.field_of(e.span(), &var.ty, &fl)?;
-                Ok(Val::new(format!("({} {})", acc, vname(&x)), ty))
-            }
+    fn place_var(&self, sp: proc_macro2::Span, x: &str) -> R<Var> {
+        match self.lookup(x) {
+            Some((_, v)) => Ok(v.clone()),
+            None => err(sp, format!("unknown variable `{}`", x)),
         }
     }
 
+    /// type of an assignment target (no code is emitted)
+    pub fn place_ty(&self, e: &syn::Expr) -> R<Ty> {
+        match self.place_of(e)? {
+            Place::Var(x) => Ok(self.place_var(e.span(), &x)?.ty),
+            Place::Field(x, fl) => Ok(self.field_of(e.span(), &self.place_var(e.span(), &x)?.ty, &fl)?.1),
+            Place::Index(x, _) => match self.place_var(e.span(), &x)?.ty {
+                Ty::Vec | Ty::Big => Ok(Ty::Int(IntTy::U64)),
+                t => err(e.span(), format!("indexed assignment into a value of type {}", t)),
+            },
+            Place::Alias(_) => Ok(Ty::Int(IntTy::U64)),
+        }
+    }
+
+    /// is the target a literal-initialised variable whose type is still open
+    pub fn place_flex(&self, e: &syn::Expr) -> Option<String> {
+        match self.place_of(e) {
+            Ok(Place::Var(x)) => match self.lookup(&x) {
+                Some((_, v)) if v.flex => Some(x),
+                _ => None,
+            },
+            _ => None,
+        }
+    }
+
+    /// current value of an assignment target
+    pub fn place_read(&mut self, e: &syn::Expr) -> R<Val> {
+        match self.place_of(e)? {
+            Place::Var(x) => {
+                let var = self.place_var(e.span(), &x)?;
+                Ok(Val::new(var.cname, var.ty))
+            }
+            Place::Field(x, fl) => {
+                let var = self.place_var(e.span(), &x)?;
+                let (acc, ty) = self.field_of(e.span(), &var.ty, &fl)?;
+                Ok(Val::new(format!("({} {})", acc, var.cname), ty))
+            }
+            Place::Index(..) => err(e.span(), "compound assignment to an indexed place is unsupported"),
+            Place::Alias(a) => self.alias_read(e.span(), &a),
+        }
+    }
+
+    /// `*xi` where `xi` aliases `x[i]` (rule 18)
+    pub fn alias_read(&mut self, sp: proc_macro2::Span, a: &str) -> R<Val> {
+        let (x, idx) = self.place_var(sp, a)?.alias.unwrap();
+        let vx = self.place_var(sp, &x)?;
+        let t = self.fresh();
+        self.push(S::Bind(t.clone(), format!("vec_get {} {}", vx.cname, idx)));
+        Ok(Val::new(t, Ty::Int(IntTy::U64)))
+    }
+
     pub fn place_write(&mut self, e: &syn::Expr, v: &Val) -> R<()> {
-        let (x, fld) = self.place_var(e)?;
-        let var = match self.lookup(&x) {
-            Some((_, v)) => v.clone(),
-            None => return err(e.span(), format!("unknown variable `{}`", x)),
-        };
-        let vx = vname(&x);
-        match fld {
-            None => {
+        let place = self.place_of(e)?;
+        match place {
+            Place::Var(x) => {
+                let var = self.place_var(e.span(), &x)?;
+                if var.alias.is_some() {
+                    return err(e.span(), "assignment to an alias variable itself");
+                }
                 if var.ty != v.ty {
                     return err(e.span(), format!("assignment of {} to a variable of type {}", v.ty, var.ty));
                 }
-                self.push(S::Let(vx, v.t.clone()));
+                self.push(S::Let(var.cname, v.t.clone()));
+                self.mark_assigned(&x);
             }
-            Some(fl) => {
+            Place::Field(x, fl) => {
+                let var = self.place_var(e.span(), &x)?;
+                let vx = var.cname.clone();
                 let (_, fty) = self.field_of(e.span(), &var.ty, &fl)?;
                 if fty != v.ty {
                     return err(e.span(), format!("assignment of {} to a field of type {}", v.ty, fty));
@@ -547,12 +767,37 @@ impl<'a> Cx<'a> {
                 let t = match (&var.ty, fl.as_str()) {
                     (Ty::Ext, "mant") => format!("mkExt {} (exp {})", v.t, vx),
                     (Ty::Ext, "exp") => format!("mkExt (mant {}) {}", vx, v.t),
-                    _ => return err(e.span(), "field assignment is only supported on ExtendedFloat"),
+                    (Ty::Num, "exponent") => format!("mkNumber {} (nmant {}) (many {})", v.t, vx, vx),
+                    (Ty::Num, "mantissa") => format!("mkNumber (nexp {}) {} (many {})", vx, v.t, vx),
+                    (Ty::Num, "many_digits") => format!("mkNumber (nexp {}) (nmant {}) {}", vx, vx, v.t),
+                    _ => return err(e.span(), "field assignment is only supported on ExtendedFloat and Number"),
                 };
                 self.push(S::Let(vx, format!("({})", t)));
+                self.mark_assigned(&x);
+            }
+            Place::Index(x, ix) => {
+                // `x[i] = v`: the value has been evaluated, now the index, then the store
+                let var = self.place_var(e.span(), &x)?;
+                if !matches!(var.ty, Ty::Vec | Ty::Big) || v.ty != Ty::Int(IntTy::U64) {
+                    return err(e.span(), format!("indexed assignment of {} into {}", v.ty, var.ty));
+                }
+                let i = self.lower_expr(&ix, Some(&Ty::Int(IntTy::Usize)))?;
+                if i.ty != Ty::Int(IntTy::Usize) {
+                    return err(e.span(), "index is not a usize");
+                }
+                self.push(S::Bind(var.cname.clone(), format!("vec_set {} {} {}", var.cname, i.t, v.t)));
+                self.mark_assigned(&x);
+            }
+            Place::Alias(a) => {
+                let (x, idx) = self.place_var(e.span(), &a)?.alias.unwrap();
+                let vx = self.place_var(e.span(), &x)?;
+                if v.ty != Ty::Int(IntTy::U64) {
+                    return err(e.span(), format!("store of {} through an alias of a limb", v.ty));
+                }
+                self.push(S::Bind(vx.cname.clone(), format!("vec_set {} {} {}", vx.cname, idx, v.t)));
+                self.mark_assigned(&x);
             }
         }
-        self.mark_assigned(&x);
         Ok(())
     }
 
@@ -579,7 +824,29 @@ impl<'a> Cx<'a> {
     // ------------------------------------------------------------------ types
 
     pub fn conv_ty(&self, t: &syn::Type) -> R<Ty> {
-        conv_ty(t)
+        // a generic parameter of the function
+        if let syn::Type::Path(p) = t {
+            if let Some(id) = p.path.get_ident() {
+                if let Some(ty) = self.tparams.get(&id.to_string()) {
+                    return Ok(ty.clone());
+                }
+            }
+        }
+        let self_ty = match self.self_kind.as_deref() {
+            Some("Bigint") => Ty::Big,
+            Some("ReverseView") => Ty::RView,
+            Some("Number") => Ty::Num,
+            _ => Ty::Float,
+        };
+        let r = conv_ty_in(t, &self_ty, self.self_kind.as_deref() == Some("ReverseView"))?;
+        let text = quote::quote!(#t).to_string();
+        let names_limb = text.split(|c: char| !(c.is_alphanumeric() || c == '_')).any(|w| matches!(w, "Limb" | "Wide" | "VecType" | "Bigint" | "ReverseView"));
+        if names_limb || uses_limb_types(&r) {
+            if let Err(e) = &self.g.limb_ok {
+                return err(t.span(), e);
+            }
+        }
+        Ok(r)
     }
 
     /// print the finished body
@@ -590,7 +857,31 @@ impl<'a> Cx<'a> {
     }
 }
 
+#[derive(Clone, Debug)]
+pub enum Place {
+    Var(String),
+    Field(String, String),
+    Index(String, syn::Expr),
+    Alias(String),
+}
+
+fn uses_limb_types(t: &Ty) -> bool {
+    match t {
+        Ty::Vec | Ty::Big | Ty::Slice | Ty::RView => true,
+        Ty::Tuple(v) => v.iter().any(uses_limb_types),
+        Ty::Opt(x) | Ty::Seq(x) => uses_limb_types(x),
+        _ => false,
+    }
+}
+
 pub fn conv_ty(t: &syn::Type) -> R<Ty> {
+    conv_ty_in(t, &Ty::Float, false)
+}
+
+/// `self_ty` = what `Self` means; `t_is_limb`: inside `impl ReverseView<T>` the parameter `T` is
+/// `Limb` (the only instantiation: `rview`, checked by the driver)
+pub fn conv_ty_in(t: &syn::Type, self_ty: &Ty, t_is_limb: bool) -> R<Ty> {
+    let rec = |x: &syn::Type| conv_ty_in(x, self_ty, t_is_limb);
     match t {
         syn::Type::Path(p) if p.qself.is_none() => {
             let seg = p.path.segments.last().unwrap();
@@ -602,13 +893,21 @@ pub fn conv_ty(t: &syn::Type) -> R<Ty> {
                 "bool" => Ok(Ty::Bool),
                 "ExtendedFloat" => Ok(Ty::Ext),
                 "Number" => Ok(Ty::Num),
-                "F" | "Self" => Ok(Ty::Float),
+                "F" => Ok(Ty::Float),
+                "Self" => Ok(self_ty.clone()),
                 "FastPathRadix" => Ok(Ty::Radix),
                 "BellerophonPowers" => Ok(Ty::Powers),
+                "Limb" => Ok(Ty::Int(IntTy::U64)),
+                "Wide" => Ok(Ty::Int(IntTy::U128)),
+                "T" if t_is_limb => Ok(Ty::Int(IntTy::U64)),
+                "VecType" => Ok(Ty::Vec),
+                "Bigint" => Ok(Ty::Big),
+                "ReverseView" => Ok(Ty::RView),
+                "Ordering" => Ok(Ty::Ordering),
                 "Option" => {
                     if let syn::PathArguments::AngleBracketed(a) = &seg.arguments {
                         if let Some(syn::GenericArgument::Type(it)) = a.args.first() {
-                            return Ok(Ty::Opt(Box::new(conv_ty(it)?)));
+                            return Ok(Ty::Opt(Box::new(rec(it)?)));
                         }
                     }
                     err(t.span(), "unsupported Option type")
@@ -616,28 +915,37 @@ pub fn conv_ty(t: &syn::Type) -> R<Ty> {
                 _ => err(t.span(), format!("unsupported type `{}`", id)),
             }
         }
-        syn::Type::Reference(r) => conv_ty(&r.elem),
+        syn::Type::Reference(r) => {
+            // `&[Limb]` is a slice (rule 14); `&'static [u64]` stays a table (rule 9)
+            if let syn::Type::Slice(s) = &*r.elem {
+                let is_static = r.lifetime.as_ref().map(|l| l.ident == "static").unwrap_or(false);
+                if !is_static && rec(&s.elem)? == Ty::Int(IntTy::U64) {
+                    return Ok(Ty::Slice);
+                }
+            }
+            rec(&r.elem)
+        }
         syn::Type::Tuple(tt) => {
             if tt.elems.is_empty() {
                 return Ok(Ty::Unit);
             }
             let mut v = vec![];
             for e in &tt.elems {
-                v.push(conv_ty(e)?);
+                v.push(rec(e)?);
             }
             Ok(Ty::Tuple(v))
         }
-        syn::Type::Paren(p) => conv_ty(&p.elem),
-        syn::Type::Array(a) => conv_table(&a.elem, t.span()),
-        syn::Type::Slice(a) => conv_table(&a.elem, t.span()),
+        syn::Type::Paren(p) => rec(&p.elem),
+        syn::Type::Array(a) => conv_table(&rec(&a.elem)?, t.span()),
+        syn::Type::Slice(a) => conv_table(&rec(&a.elem)?, t.span()),
         _ => err(t.span(), "unsupported type"),
     }
 }
 
-fn conv_table(elem: &syn::Type, sp: proc_macro2::Span) -> R<Ty> {
-    match conv_ty(elem)? {
+fn conv_table(elem: &Ty, sp: proc_macro2::Span) -> R<Ty> {
+    match elem {
         Ty::Int(IntTy::U64) => Ok(Ty::Table),
-        Ty::Tuple(v) if v == vec![Ty::Int(IntTy::U64), Ty::Int(IntTy::U64)] => Ok(Ty::Table2),
+        Ty::Tuple(v) if *v == vec![Ty::Int(IntTy::U64), Ty::Int(IntTy::U64)] => Ok(Ty::Table2),
         _ => err(sp, "unsupported table element type"),
     }
 }
